@@ -1,15 +1,17 @@
 SPECIFICATION Spec
-CONSTANTS N = 86400 MaxSteps = 4 InvertStartBySecTruncation = FALSE CaptureAtJoinEpoch = FALSE CacheIgnoresEpoch = FALSE LocalTimeEpoch = FALSE MaxJoinSteps = 0
+CONSTANTS N = 86400 MaxSteps = 4 InvertStartBySecTruncation = FALSE CaptureAtJoinEpoch = FALSE CacheIgnoresEpoch = FALSE LocalTimeEpoch = FALSE MemoIgnoresSite = FALSE MaxJoinSteps = 0
 CONSTANT Lons <- LonsAll
 CONSTANT Theta0s <- ThetasAll
 CONSTANT StartSecs <- Secs60
 CONSTANT PriorAngles <- NoPrior
 CONSTANT Zones <- ZonesUtc
+CONSTANT PriorLonShifts <- NoPrior
 CONSTANT Plans <- PlansQuick
 CONSTANT Dts <- OneDt
 INVARIANT SiteEpochAgrees
 INVARIANT StartInversionExact
 INVARIANT ConvertIgnoresHistory
+INVARIANT SiteFromCurrentConfig
 INVARIANT SiteFixed
 INVARIANT VelIsRotation
 INVARIANT Emit
